@@ -58,6 +58,26 @@ export async function* corpus(ctx, { label, count, features, nDecls, nParsers, o
   }
 }
 
+// items for hand-built AST programs ({decls, parsers}); same shape as the corpus yields
+export async function* programItems(ctx, programs, label) {
+  const { Env } = await import("../ref/normalize.mjs");
+  let i = 0;
+  for (const p of programs) {
+    i++;
+    const rng = new Rng(ctx.seed, `${label}|${i}`);
+    const env = new Env(p.decls);
+    const cores = new Map();
+    for (const ps of p.parsers) cores.set(ps.name, env.norm(ps.t));
+    const prog = { ...p, env, cores };
+    const text = renderProgram(prog);
+    const req = { files: { "entry.ts": text }, settings: ALL_SETTINGS };
+    const res = await ctx.compiler.compile(req);
+    if (res.outcome !== "code") throw new Error(`${label}: program ${i} does not compile: ${JSON.stringify(res.diagnostics?.[0]?.message ?? res.outcome)}\n${text}`);
+    const parsers = buildAll(loadModule(res.code, ALL_SETTINGS));
+    yield { index: i, prog, text, req, res, parsers, ref: new Ref(env), rng, valgen: new ValGen(rng.fork("values"), env) };
+  }
+}
+
 // values for one parser: members by construction, one-edit mutants, hostile pool
 export function valuesFor(item, core, { members = 10, mutantsPer = 2, hostile = true } = {}) {
   const vg = item.valgen;
